@@ -70,6 +70,7 @@ def C08_ops_list (h : Nat) : Prop :=
   (∀ pre ht hs rn q fa, AKeeps h (aImage pre ht hs rn q fa h)) ∧
   (∀ op hs ho, AKeeps h (fApply op hs ho h)) ∧
   (∀ high hs, AKeeps h (fChild high hs h)) ∧
+  (∀ hs, AKeeps h (fCopy hs h)) ∧
   AKeeps h aCollectGarbage ∧
   (∀ o, AKeeps h (aReorder o)) ∧
   (∀ ns, AKeeps h (aDeclare ns)) ∧
@@ -86,16 +87,17 @@ theorem C08_ops_of_coreSpecs (cs : CoreSpecs) : C08_ops_statement := fun h =>
    fun d => aCube_keeps cs d h, fun i => aAddInt_keeps i h, fun hu => aCopyBddSame_keeps hu h,
    fun pre ht hs rn q fa => aImage_keeps cs pre ht hs rn q fa h,
    fun op hs ho => fApply_keeps cs op hs ho h, fun high hs => fChild_keeps high hs h,
-   aCollectGarbage_keeps cs h, fun o => aReorder_keeps cs o h, fun ns => aDeclare_keeps cs ns h,
+   fun hs => fCopy_keeps hs h, aCollectGarbage_keeps cs h, fun o => aReorder_keeps cs o h, fun ns => aDeclare_keeps cs ns h,
    fun n l => aAddVar_keeps cs n l h⟩
 
 /-- the methods that need no hypothesis at all: `true`/`false`, `_add_int`, `copy_bdd` into
-the same manager, `low`/`high` -/
+the same manager, `low`/`high`, `copy.copy(f)` -/
 theorem C08_ops_unconditional (h : Nat) :
     (∀ b, AKeeps h (aConst b h)) ∧ (∀ i, AKeeps h (aAddInt i h)) ∧
-    (∀ hu, AKeeps h (aCopyBddSame hu h)) ∧ (∀ high hs, AKeeps h (fChild high hs h)) :=
+    (∀ hu, AKeeps h (aCopyBddSame hu h)) ∧ (∀ high hs, AKeeps h (fChild high hs h)) ∧
+    (∀ hs, AKeeps h (fCopy hs h)) :=
   ⟨fun b => aConst_keeps b h, fun i => aAddInt_keeps i h, fun hu => aCopyBddSame_keeps hu h,
-   fun high hs => fChild_keeps high hs h⟩
+   fun high hs => fChild_keeps high hs h, fun hs => fCopy_keeps hs h⟩
 
 /-- histories: through any sequence of operations with the guarantee `AKeeps` (constructions,
 operators, traversals, collections, reorderings) and drops of *other* handles in any order,
